@@ -58,11 +58,13 @@ def cmd_check(a):
     n = a.cases if a.cases is not None else prof.n_cases(tier)
     nsmoke = min(n, 48 if tier == "quick" else 400)
     bad, first = determinism_smoke(pid, tier, seed, libs, nsmoke, timeout)
+    nondet = []
     if bad and not getattr(prof, "NONDET_IS_VIOLATION", False):
-        print("HARNESS-ERROR nondeterministic event logs for cases %s" % bad[:10])
-        return 2
+        # not this property's business by itself (C08/C11 own it); the oracles still run on every case. If they find
+        # nothing the run is reported as a harness-level error, never as a pass.
+        nondet = bad
     for r in first:
-        if r["index"] in bad:
+        if r["index"] in bad and getattr(prof, "NONDET_IS_VIOLATION", False):
             # the harness is deterministic on its own (selftest); for this property a repeated execution of the very
             # same case that yields another event log is the violation itself
             r["viol"].append({"class": "violation", "oracle": pid + ".repeatable", "lifetime": None,
@@ -70,7 +72,13 @@ def cmd_check(a):
             r["case"] = prof.generate(seed, tier, r["index"])
     idx = list(range(a.start + nsmoke, a.start + n))
     recs = first + runner.run_pool(pid, tier, seed, idx, libs, timeout)
-    return finish(pid, tier, seed, prof, recs, libs, timeout, known, t0, a, extra_cov={"determinism_smoke_cases": nsmoke})
+    rc = finish(pid, tier, seed, prof, recs, libs, timeout, known, t0, a, extra_cov={"determinism_smoke_cases": nsmoke})
+    if nondet:
+        print("NONDETERMINISM: event logs of cases %s differ between two executions of the same concrete case" % nondet[:10])
+        if rc == 0:
+            print("HARNESS-ERROR the executions are not repeatable on this tree; no verdict")
+            rc = 2
+    return rc
 
 
 def finish(pid, tier, seed, prof, recs, libs, timeout, known, t0, a, extra_cov=None):
